@@ -44,6 +44,8 @@ impl Shared {
 
 	#[must_use]
 	pub fn state(&self) -> PlaybackState {
+		#[cfg(kira_verif)]
+		crate::verif::yield_point("stream.state.load");
 		match self.state.load(Ordering::SeqCst) {
 			0 => PlaybackState::Playing,
 			1 => PlaybackState::Pausing,
@@ -57,21 +59,29 @@ impl Shared {
 	}
 
 	pub fn set_state(&self, state: PlaybackState) {
+		#[cfg(kira_verif)]
+		crate::verif::yield_point("stream.state.store");
 		self.state.store(state as u8, Ordering::SeqCst);
 	}
 
 	#[must_use]
 	pub fn position(&self) -> f64 {
+		#[cfg(kira_verif)]
+		crate::verif::yield_point("stream.position.load");
 		f64::from_bits(self.position.load(Ordering::SeqCst))
 	}
 
 	#[must_use]
 	pub fn reached_end(&self) -> bool {
+		#[cfg(kira_verif)]
+		crate::verif::yield_point("stream.reached_end.load");
 		self.reached_end.load(Ordering::SeqCst)
 	}
 
 	#[must_use]
 	pub fn encountered_error(&self) -> bool {
+		#[cfg(kira_verif)]
+		crate::verif::yield_point("stream.error.load");
 		self.encountered_error.load(Ordering::SeqCst)
 	}
 }
@@ -126,6 +136,8 @@ impl StreamingSound {
 	}
 
 	fn update_current_frame(&mut self) {
+		#[cfg(kira_verif)]
+		crate::verif::yield_point("stream.ring.peek");
 		let chunk = self
 			.frame_consumer
 			.read_chunk(self.frame_consumer.slots().min(4))
@@ -194,6 +206,8 @@ impl StreamingSound {
 impl Sound for StreamingSound {
 	fn on_start_processing(&mut self) {
 		self.update_current_frame();
+		#[cfg(kira_verif)]
+		crate::verif::yield_point("stream.position.store");
 		self.shared
 			.position
 			.store(self.position().to_bits(), Ordering::SeqCst);
@@ -236,6 +250,8 @@ impl Sound for StreamingSound {
 		// pause playback while waiting for audio data. the first frame
 		// in the ringbuffer is the previous frame, so we need to make
 		// sure there's at least 2 before we continue playing.
+		#[cfg(kira_verif)]
+		crate::verif::yield_point("stream.ring.slots");
 		if self.frame_consumer.slots() < 2 && !self.shared.reached_end() {
 			out.fill(Frame::ZERO);
 			return;
@@ -262,6 +278,8 @@ impl Sound for StreamingSound {
 			self.fractional_position += self.sample_rate as f64 * playback_rate.0.max(0.0) * dt;
 			while self.fractional_position >= 1.0 {
 				self.fractional_position -= 1.0;
+				#[cfg(kira_verif)]
+				crate::verif::yield_point("stream.ring.pop");
 				self.frame_consumer.pop().ok();
 			}
 			if self.shared.reached_end() && self.frame_consumer.is_empty() {
